@@ -36,4 +36,5 @@ class EqValue(GenericValue):
         return self._file._value_to_code(self._new_value)
 
     def _get_changes(self) -> Iterator[Change]:
-        return iter(self._changes)
+        # there are no changes if the snapshot was only compared during the alignment of a list
+        return iter(getattr(self, "_changes", []))
